@@ -11,10 +11,10 @@ import (
 	"github.com/oasisprotocol/curve25519-voi/zzverif/mon"
 )
 
-func backendName() string                            { return "unknown (no graft)" }
-func limbValue(fe *field.Element) (*big.Int, bool)   { return nil, false }
-func observeOut(r *mon.Run, op string, fe *field.Element) {}
-func describe(fe *field.Element) string              { return fmt.Sprintf("%x", toBytes(fe)) }
+func backendName() string                                    { return "unknown (no graft)" }
+func limbValue(fe *field.Element) (*big.Int, bool)           { return nil, false }
+func observeOut(r *mon.Run, op string, fe *field.Element)    {}
+func describe(fe *field.Element) string                      { return fmt.Sprintf("%x", toBytes(fe)) }
 func graftMulVariants(x *ctx, a, b *Elem, det func() string) {}
-func limbStress(x *ctx, rng *rand.Rand)              { x.r.HookMissing("field graft (raw limb access)") }
-func laneStress(x *ctx, rng *rand.Rand)              {}
+func limbStress(x *ctx, rng *rand.Rand)                      { x.r.HookMissing("field graft (raw limb access)") }
+func laneStress(x *ctx, rng *rand.Rand)                      {}
